@@ -103,6 +103,9 @@ def c17(ctx):
 
 def c04(ctx):
     prog = ctx.prog("dev")
+    # no layout-observing API in maybe_nan outside the audited helper (the compaction itself must be stride-agnostic)
+    sc, si = RL.rule_r1(ctx, prog, scope=lambda b: b.key.startswith("maybe_nan::") or " as maybe_nan::" in b.key)
+    ctx.floor("R1", sc, 40, "maybe_nan bodies scanned")
     n2 = RU.rule_r2(ctx, prog)
     ctx.floor("R2", n2, 3, "from_shape_ptr sites")
     RU.rule_cast_guards(ctx, prog)
@@ -135,7 +138,9 @@ def c04(ctx):
 
 def c03(ctx):
     prog = ctx.prog("dev")
-    RE.rule_r4(ctx, prog)
+    eff = RE.rule_r4(ctx, prog)
+    fam = set(eff.family)
+    RL.rule_r1(ctx, prog, scope=lambda b: b.key in fam or (b.is_closure and b.root in fam))
     n2 = RU.rule_r2(ctx, prog)
     ctx.floor("R2", n2, 3, "from_shape_ptr sites")
     RU.rule_cast_guards(ctx, prog)
@@ -191,6 +196,7 @@ def c14(ctx):
     ctx.floor("R8", ns, 4, "axis arguments in skip-NaN routines")
     n2 = RU.rule_r2(ctx, prog)
     ctx.floor("R2", n2, 3, "from_shape_ptr sites")
+    RL.rule_r1(ctx, prog, scope=lambda b: b.key.startswith("maybe_nan::") or " as maybe_nan::" in b.key or "skipnan" in b.key)
     impls = [b for b in prog.bodies.values() if b.name == "remove_nan_mut" and " as maybe_nan::MaybeNan>" in b.key]
     for b in impls:
         ok, detail = RU.audit_unsafe(prog, b, "remove_nan_mut")
